@@ -218,6 +218,36 @@ mutant("set-b-hl-skips-write-when-unchanged", ["C05"], [("op_bitop.go", """	x :=
 }""")], note="missing write-back of an unchanged value: device sees no write")
 
 
+# ---- C12 -------------------------------------------------------------------
+mutant("dumbmemory-set-unguarded", ["C12"], [("memio.go", """func (dm DumbMemory) Set(addr uint16, value uint8) {
+	if int(addr) >= len(dm) {
+		return
+	}""", """func (dm DumbMemory) Set(addr uint16, value uint8) {
+	if int(addr) > len(dm) {
+		return
+	}""")], note="off-by-one bound: write exactly at len panics")
+mutant("ini-calls-io-directly", ["C12"], [("op_inout.go", """func oopIND(cpu *CPU) {
+	cpu.Memory.Set(cpu.HL.U16(), cpu.ioIn(cpu.BC.Lo))""", """func oopIND(cpu *CPU) {
+	cpu.Memory.Set(cpu.HL.U16(), cpu.IO.In(cpu.BC.Lo))""")], note="nil IO panics on IND only")
+mutant("ed-invalid-reexecutes-second-byte", ["C12"], [("operation.go", """		case 0xbb:
+			oopOTDR(cpu)
+
+		default:
+			cpu.invalidCode(c0, c1)
+		}""", """		case 0xbb:
+			oopOTDR(cpu)
+
+		default:
+			cpu.invalidCode(c0, c1)
+			cpu.PC--
+		}""")], note="unsupported ED xx: second byte is executed again as an opcode")
+mutant("im-out-of-range-indexes-table", ["C12"], [("cpu.go", """	switch cpu.IM {
+	case 0:
+		// Interrupt with IM 0""", """	_ = [3]int{}[cpu.IM&0xff]
+	switch cpu.IM {
+	case 0:
+		// Interrupt with IM 0""")], note="table-driven dispatch on IM without range check")
+
 def run(cmd, **kw):
     return subprocess.run(cmd, stdout=subprocess.PIPE, stderr=subprocess.STDOUT, text=True, **kw)
 
